@@ -1,6 +1,7 @@
 package props
 
 import (
+	"go/types"
 	"fmt"
 	"sort"
 	"strings"
@@ -49,7 +50,8 @@ func segmentOrder(c *core.Ctx, r *core.Rule) {
 		walk(v, 0)
 		return found
 	}
-	classify := func(fn *ssa.Function, writer bool) map[string][]ssa.Instruction {
+	var classify func(fn *ssa.Function, writer bool, depth int) map[string][]ssa.Instruction
+	classify = func(fn *ssa.Function, writer bool, depth int) map[string][]ssa.Instruction {
 		out := map[string][]ssa.Instruction{}
 		var dataParam ssa.Value
 		for _, pa := range fn.Params {
@@ -107,11 +109,21 @@ func segmentOrder(c *core.Ctx, r *core.Rule) {
 				} else {
 					out["PAD"] = append(out["PAD"], ins)
 				}
+			default:
+				// a helper of the same type that performs stream operations of exactly one segment kind
+				if f := cc.StaticCallee(); f != nil && depth < 2 && f.Signature.Recv() != nil && fn.Signature.Recv() != nil && len(f.Blocks) > 0 && types.Identical(f.Signature.Recv().Type(), fn.Signature.Recv().Type()) {
+					sub := classify(f, writer, depth+1)
+					if len(sub) == 1 {
+						for k := range sub {
+							out[k] = append(out[k], ins)
+						}
+					}
+				}
 			}
 		})
 		return out
 	}
-	wt, rt := classify(wfn, true), classify(rfn, false)
+	wt, rt := classify(wfn, true, 0), classify(rfn, false, 0)
 	segs := []string{"HEADER", "DATA", "PAD", "OPTS", "TRAILER"}
 	if len(rt["TRAILER"]) == 0 && len(rt["DATA"]) > 0 {
 		r.Violate("pcapng/packet-block/trailer-consumed", p.Pos(rfn.Pos()), "the reader hands the packet out without consuming the rest of the block (padding, options, trailing block length) in the same call: from a file cut inside those bytes a packet is returned as if it were complete, and the error surfaces only on the next call", nil)
